@@ -129,6 +129,9 @@ struct Case {
     blocks: BTreeMap<u64, BlockInfo>,
     /// chain id of the first `seqblock`/`seqcommit` op of the case
     chain: Option<String>,
+    /// one verifier (and hence one verification cache) per case, as one conductor process has;
+    /// `pipeline ... fresh=1` uses a new one for that op only
+    verifier: std::sync::OnceLock<Arc<BlobVerifier>>,
 }
 
 impl Case {
@@ -141,6 +144,7 @@ impl Case {
             table,
             blocks: BTreeMap::new(),
             chain: None,
+            verifier: std::sync::OnceLock::new(),
         }
     }
 }
@@ -968,8 +972,13 @@ async fn op_pipeline(case: &Case, args: &Args<'_>, out: &Out) -> HarnessResult {
 
     let client = SequencerClient::new(case.server.uri().as_str())
         .map_err(|e| format!("http-client:{e}"))?;
-    let verifier =
+    let new_verifier =
         Arc::new(BlobVerifier::try_new(client, 1000).map_err(|e| format!("blob-verifier:{e}"))?);
+    let verifier = if args.opt("fresh") == Some("1") {
+        new_verifier
+    } else {
+        case.verifier.get_or_init(|| new_verifier).clone()
+    };
 
     let panics_before = PANICS.load(Ordering::SeqCst);
 
